@@ -319,3 +319,4 @@ MANIFEST = {
 }
 MANIFEST["text"] += ' Gram–Schmidt is decided by an abstract interpretation of the routine (basis list, running vector, norms, sort key and order tensors found by definition, not by name): conjugate on the basis vector, subtraction from the running vector, all previous modes, own-norm normalisation, norms restored in the same index order before/with the sort, descending sort on restored intensity or original norms, one order tensor for real and imaginary parts.'
 MANIFEST["text"] += ' R1: redundant earlier slice ties are allowed; the last write before the return must be the tie.'
+MANIFEST["text"] += ' R5 (coupled): the probe getter applies the constraints to the current parameter — a memo keyed on data_ptr/_version is sound only without writes through `.data`.'
